@@ -59,6 +59,8 @@ def table : List (Nat × SiteClass × String) := [
   (3027686973, .width 65535 64,      "jc2m parse_players_and_teams: count is a u16, Player is two Strings and a u16"),
   (3237879920, .proportional 32,     "minecraft java: one Player (48 bytes) per element of the parsed JSON array, an element takes ≥ 2 bytes of text"),
   (3035055033, .proportional 1,      "minecraft get_string: length checked against remaining_length() before the reservation"),
+  (2202733054, .stream,              "http.rs json_body: the JSON body drained into a vector that starts empty (the announced Content-Length is not used); grows with what arrives"),
+  (4019801300, .stream,              "http.rs json_body: the reader's limit (1 GiB) only caps the above"),
   (966780026,  .unreachable,         "http.rs request(): HttpClient::get is not used by any query (Eco and the services use get_json / post_json)"),
   (717832595,  .unreachable,         "http.rs request(): same"),
   (1531723834, .unreachable,         "http.rs request(): same (Content-Length.min(1 GiB) would not be acceptable on a query path)"),
@@ -116,7 +118,7 @@ theorem C13_single_request_proportional :
     ∀ e ∈ table, ∀ r : Nat, worst e.2.1 r ≤ 10 * MiB + 64 * r := by
   intro e he r
   simp only [table, List.mem_cons, List.mem_nil_iff, or_false] at he
-  rcases he with h | h | h | h | h | h | h | h | h | h | h | h | h | h | h | h | h | h | h | h | h | h | h | h | h <;>
+  rcases he with h | h | h | h | h | h | h | h | h | h | h | h | h | h | h | h | h | h | h | h | h | h | h | h | h | h | h <;>
     subst h <;> simp only [worst, MiB] <;> omega
 
 /-- **Single request, datagram protocols.**  For a reply datagram (at most 65535 bytes) every
@@ -139,7 +141,7 @@ theorem C13_worst_affine (c : SiteClass) (r : Nat) : worst c r = base c + slope 
 theorem C13_table_constants : ∀ e ∈ table, base e.2.1 ≤ 10 * MiB ∧ slope e.2.1 ≤ 64 := by
   intro e he
   simp only [table, List.mem_cons, List.mem_nil_iff, or_false] at he
-  rcases he with h | h | h | h | h | h | h | h | h | h | h | h | h | h | h | h | h | h | h | h | h | h | h | h | h <;>
+  rcases he with h | h | h | h | h | h | h | h | h | h | h | h | h | h | h | h | h | h | h | h | h | h | h | h | h | h | h <;>
     subst h <;> simp only [base, slope, worst, MiB] <;> omega
 
 /-- non-vacuity: the generated list is not empty and names a site that takes its size from the wire -/
